@@ -6,8 +6,9 @@ reamber/algorithms/generate/full_ln.py, Map.stack and TimedList.from_dict by the
 `harness/props/c17.py` on every run) against the declarative `Spec` of `Reamber/Spec/FullLN.lean`.
 
 Main statement (`fullLn_spec`): for EVERY sorting function (any sorted permutation — numpy's quicksort is not
-stable), every gap and threshold and EVERY chart, the hits and holds of the model's result satisfy `Spec` with
-respect to the chart's hits and holds, and the further note lists (StepMania mines, rolls, …) and all other
+stable), every gap and threshold and every chart whose hit list carries no `length` values (a DOMAIN hypothesis — the library never builds
+such a list; `stray_length_counterexample` shows why it is needed; `fullLn_spec_stacked` says what the code does for EVERY chart), the hits and holds
+of the model's result satisfy `Spec` with respect to the chart's hits and holds (kind = the list a note lives in), and the further note lists (StepMania mines, rolls, …) and all other
 parts are untouched.  (Before the repairs of D23 and D24 this needed two hypotheses; the section `PreFix`
 keeps the two defects as theorems about the code as it was, which is what `harness/mutants/fixed/D23.patch`
 and `D24.patch` re-introduce.)  Everything the property lists follows from `Spec` alone (so it also holds for
@@ -546,37 +547,82 @@ theorem notes_result_perm (rows : List Row) :
   rw [h1, List.map_id]
   exact List.filter_append_perm isHit rows
 
-/-- the hits and holds of the result are, up to order, the produced rows -/
-theorem stacked_fullLnWith {α} (sortF : List Row → List Row) (gap thr : Rat) (m : MapM α) :
-    (stacked (fullLnWith sortF gap thr m)).Perm (fullLnRows gap thr (sortF (stacked m))) := by
-  simp only [fullLnWith, stacked, fromDict_eq]
+/-- the hits and holds of the result (kind = list) are, up to order, the produced rows -/
+theorem ownNotes_fullLnWith {α} (sortF : List Row → List Row) (gap thr : Rat) (m : MapM α) :
+    (ownNotes (fullLnWith sortF gap thr m)).Perm (fullLnRows gap thr (sortF (stacked m))) := by
+  simp only [fullLnWith, ownNotes, fromDict_eq]
   exact notes_result_perm _
 
-/-- **Main theorem.** For every sorting function `sort_values` may be, every `gap` and threshold and every
-chart: the hits and holds of `full_ln`'s result satisfy the statement `Spec` with respect to the hits and
-holds of the input, and the further note lists, the tempo list and everything else are the input's
-(**others_unchanged**). -/
-theorem fullLn_spec {α} (sortF : List Row → List Row) (hs : SortsByOffset sortF) (gap thr : Rat) (m : MapM α) :
-    Spec gap thr (stacked m) (stacked (fullLnWith sortF gap thr m)) ∧
+theorem map_asHit_of_none (l : List Row) (h : ∀ r ∈ l, r.length = none) : l.map asHit = l := by
+  have : l.map asHit = l.map id := List.map_congr_left (fun r hr => by
+    cases r with
+    | mk o c len =>
+      have : len = none := h _ hr
+      subst this; rfl)
+  rw [this, List.map_id]
+
+theorem map_key_asHit (l : List Row) : (l.map asHit).map key = l.map key := by
+  rw [List.map_map]
+  apply List.map_congr_left
+  intro r _
+  rfl
+
+/-- **What the code does, for every chart**: the result's hits and holds satisfy `Spec` with respect to the
+stacked frame *as the loop sees it* — a member of `hits` that carries a non-NaN `length` counts as a hold there. -/
+theorem fullLn_spec_stacked {α} (sortF : List Row → List Row) (hs : SortsByOffset sortF) (gap thr : Rat)
+    (m : MapM α) :
+    Spec gap thr (stacked m) (ownNotes (fullLnWith sortF gap thr m)) ∧
       (fullLnWith sortF gap thr m).others = m.others ∧ (fullLnWith sortF gap thr m).extras = m.extras := by
   refine ⟨?_, rfl, rfl⟩
   exact (fullLnRows_spec gap thr (stacked m) (sortF (stacked m)) (hs.perm _) (hs.sorted _)).of_perm_out
-    (stacked_fullLnWith sortF gap thr m)
+    (ownNotes_fullLnWith sortF gap thr m)
+
+/-- **Main theorem.** For every sorting function `sort_values` may be, every `gap` and threshold and every
+chart whose hit list carries no `length` values (`hh`, a DOMAIN hypothesis: a hit list has exactly its declared
+fields — constructors, readers and converters of the library guarantee it; `stray_length_counterexample`): the hits and holds of
+`full_ln`'s result satisfy the statement `Spec` with respect to the hits and holds of the input (kind of a note
+= the list it lives in), and the further note lists, the tempo list and everything else are the input's
+(**others_unchanged**). -/
+theorem fullLn_spec {α} (sortF : List Row → List Row) (hs : SortsByOffset sortF) (gap thr : Rat) (m : MapM α)
+    (hh : ∀ r ∈ m.hits, r.length = none) :
+    Spec gap thr (ownNotes m) (ownNotes (fullLnWith sortF gap thr m)) ∧
+      (fullLnWith sortF gap thr m).others = m.others ∧ (fullLnWith sortF gap thr m).extras = m.extras := by
+  have h := fullLn_spec_stacked sortF hs gap thr m
+  have e : ownNotes m = stacked m := by simp only [ownNotes, stacked, map_asHit_of_none m.hits hh]
+  rw [e]
+  exact h
 
 /-- the same for the model's own stable sort (what the driver runs) -/
-theorem fullLn_spec_stable {α} (gap thr : Rat) (m : MapM α) :
-    Spec gap thr (stacked m) (stacked (fullLn gap thr m)) ∧
+theorem fullLn_spec_stable {α} (gap thr : Rat) (m : MapM α) (hh : ∀ r ∈ m.hits, r.length = none) :
+    Spec gap thr (ownNotes m) (ownNotes (fullLn gap thr m)) ∧
       (fullLn gap thr m).others = m.others ∧ (fullLn gap thr m).extras = m.extras :=
-  fullLn_spec sortByOffset sortByOffset_sorts gap thr m
+  fullLn_spec sortByOffset sortByOffset_sorts gap thr m hh
 
-/-- over ALL notes of the chart (further note lists included): one note per input note at the same time and
-column — the conservation that D23 broke -/
+/-- over ALL notes of the chart (further note lists included) and for EVERY chart: one note per input note at
+the same time and column — the conservation that D23 broke; it does not depend on stray `length` values -/
 theorem fullLn_notes_conservation {α} (sortF : List Row → List Row) (hs : SortsByOffset sortF) (gap thr : Rat)
     (m : MapM α) : ((notes (fullLnWith sortF gap thr m)).map key).Perm ((notes m).map key) := by
-  have h := (fullLn_spec sortF hs gap thr m).1.conservation
+  have h := (fullLn_spec_stacked sortF hs gap thr m).1.conservation
   have he : (fullLnWith sortF gap thr m).extras = m.extras := rfl
-  simp only [notes, List.map_append, he]
+  have hk : (ownNotes m).map key = (stacked m).map key := by
+    simp only [ownNotes, stacked, List.map_append, map_key_asHit]
+  simp only [notes, List.map_append, he] at h ⊢
+  rw [hk]
   exact List.Perm.append_left _ h
+
+/-- a chart outside the domain: a hit list whose two members carry a stray `length` of 0 -/
+def strayChart : MapM Unit := ⟨[], [⟨0, 0, some 0⟩, ⟨500, 0, some 0⟩], [], ()⟩
+
+/-- why the domain hypothesis `hh` is there (documentation, not a finding): with a non-NaN `length` on a member of
+`hits` the statement would fail — the last hit of the column comes back as a hold of length 0 -/
+theorem stray_length_counterexample :
+    (fullLn 150 100 strayChart).holds = [⟨0, 0, some 350⟩, ⟨500, 0, some 0⟩] ∧ (fullLn 150 100 strayChart).hits = [] ∧
+      ¬ Spec 150 100 (ownNotes strayChart) (ownNotes (fullLn 150 100 strayChart)) := by
+  refine ⟨by decide +kernel, by decide +kernel, ?_⟩
+  intro h
+  have hb := specB_complete _ _ _ _ h
+  revert hb
+  decide +kernel
 
 /-! ### the two repaired defects, as theorems about the code as it was (what the reverse patches
 `harness/mutants/fixed/D23.patch` / `D24.patch` bring back) -/
@@ -586,7 +632,7 @@ namespace PreFix
 open Reamber.Timing (Err)
 
 /-- before D23: `m.stack((HitList, HoldList))` — every HitList/HoldList-typed list of the chart is stacked -/
-def stacked {α} (m : MapM α) : List Row := m.extras ++ FullLN.stacked m
+def stacked {α} (m : MapM α) : List Row := m.extras ++ FullLN.ownNotes m
 
 /-- before D24: `df[col] = default` raises `ValueError` when a declared default is a list (Quaver) -/
 def fromDict (scalarDefaults : Bool) (rows : List Row) : Except Err (List Row) :=
